@@ -2446,7 +2446,8 @@ fn write_eh_frame_relocations<'data, A: Arch<Platform = Elf>, R: Relocation>(
             if let Some(rel) = relocations.peek() {
                 let rel_offset = rel.offset();
                 if rel_offset < next_input_pos as u64 {
-                    let is_pc_begin = (rel_offset as usize - input_pos) == elf::FDE_PC_BEGIN_OFFSET;
+                    let is_pc_begin = (rel_offset as usize).checked_sub(input_pos)
+                        == Some(elf::FDE_PC_BEGIN_OFFSET);
 
                     if is_pc_begin {
                         let Some(index) = rel.symbol() else {
